@@ -216,3 +216,45 @@ func stmtsOf(payload string) []string {
 }
 
 func keyOf(stmts []string) string { return strings.Join(stmts, "\n----\n") }
+
+// stmtForms: the statement-position product (DESIGN §4 C01 F2): every statement form with every body shape.
+// level 0: simple statements; level 1: every compound form over level-0 bodies (one-line and braced);
+// level 2 (thorough): compound forms over level-1 bodies.
+func stmtForms(levels int) []T {
+	c := Bin("<", I(1), N("gi"))  // computed, true
+	cf := Bin("<", N("gi"), I(1)) // computed, false
+	s0 := []T{
+		I(5), Bin("+", N("gi"), I(1)), Call("id", I(5)), Asg("x", I(5)), Asg("x", Bin("+", N("gi"), I(1))),
+		Ret(I(5)), Ret(Bin("+", N("gi"), I(1))), Yld(I(5)), Call("write", S("w")),
+	}
+	compound := func(bodies []T) []T {
+		out := []T{}
+		for _, b := range bodies {
+			out = append(out,
+				If(c, b), If(cf, b), If(B(true), b), If(Un("!", cf), b),
+				Wh(cf, b), Blk(Asg("n", I(0)), Wh(Bin("<", N("n"), I(2)), Blk(Asg("n", Bin("+", N("n"), I(1))), b))),
+				For("i", Call("fromto", I(0), I(2)), b), For("i", Call("fromto", I(0), I(0)), b),
+			)
+		}
+		for i, b := range bodies {
+			// if-else over pairs: every body against a rotating partner and against a plain value
+			e := bodies[(i*7+3)%len(bodies)]
+			out = append(out, IfE(c, b, e), IfE(cf, b, e), IfE(c, b, I(6)), IfE(cf, I(6), b))
+		}
+		return out
+	}
+	withBlocks := func(ss []T) []T {
+		out := append([]T{}, ss...)
+		for _, x := range ss {
+			out = append(out, Blk(Asg("t", I(1)), x))
+		}
+		return out
+	}
+	all := append([]T{}, s0...)
+	level := s0
+	for l := 1; l <= levels; l++ {
+		level = compound(withBlocks(level))
+		all = append(all, level...)
+	}
+	return all
+}
